@@ -619,6 +619,7 @@ pub fn run_batch(def: &'static ScenDef, seed: u64, first_run: u64, runs: u64, ga
                     }
                     for r in base..(base + CHUNK).min(runs) {
                         let run = first_run + r;
+                        crate::core::heartbeat();
                         if let Some(f) = &idx_file {
                             use std::os::unix::fs::FileExt;
                             let _ = f.write_at(&run.to_le_bytes(), 0);
@@ -652,6 +653,7 @@ pub fn run_batch(def: &'static ScenDef, seed: u64, first_run: u64, runs: u64, ga
                         }
                     }
                 }
+                crate::core::heartbeat_done();
                 let mut m = merged.lock().unwrap();
                 m.runs += out.runs;
                 m.stats.merge(&out.stats);
